@@ -165,6 +165,9 @@ func main() {
 		native[virtual] = abs
 	}
 	addOverlay(filepath.Join(*repoMod, "pkg/zzverif/api.go"), *api)
+	if !strings.HasSuffix(strings.TrimSuffix(*pkgPat, "/"), "pkg/supervisor") {
+		addOverlay(filepath.Join(*repoMod, "pkg/zzverif/sup.go"), filepath.Join(filepath.Dir(*api), "sup.go"))
+	}
 	if *harnessDir != "" {
 		fs, _ := filepath.Glob(filepath.Join(*harnessDir, "*.go"))
 		sort.Strings(fs)
